@@ -238,11 +238,10 @@ def projections(kind, x):
 PADS = ["", "", " ", "  ", "\t", "\n", " ", "　", " ", "\x1c", "\x85", " "]
 
 
-def _padded(rng, s):
-    return rng.choice(PADS) + s + rng.choice(PADS)
+SAFE_PADS = [p for p in PADS if p not in ("\x85", "\u2028", "\u2029")]      # for checks whose driver output carries raw text lines
 
 
-def random_exotic(rng, kind=None):
+def random_exotic(rng, kind=None, pads=None):
     """A native of an unusual but legitimate type, mostly one that suits the kind (any when kind is None):
     text-likes for every kind (their text suiting the kind), numeric subclasses for numbers / booleans / strings,
     temporal subclasses for temporals; often padded with ASCII / non-ASCII whitespace."""
@@ -261,6 +260,8 @@ def random_exotic(rng, kind=None):
         "time": ["03:04:05", "23:59:59", "24:00:00"],
         "datetime": ["2020-01-02 03:04:05", "1999-12-31 23:59:59"],
     }[bk]
+    pads = pads or PADS
+    _padded = lambda rng, s: rng.choice(pads) + s + rng.choice(pads)
     shown = lambda base: _padded(rng, rng.choice([base, base, "shown", "<obj>", ""]))
     r = rng.random()
     if r < 0.36:
